@@ -63,7 +63,6 @@ CATALOGUE = [
     ("m-c19-empty-dirs-dropped", "C19", HS, "        curr = ret\n        for seg in str(relpath).split(\"/\"):", "        if not (is_file or is_sym) and not any(path.iterdir()):\n            continue\n        curr = ret\n        for seg in str(relpath).split(\"/\"):"),
     ("m-c19-symlink-as-file", "C19", HS, "        is_file = path.is_file() and not is_sym", "        is_file = path.is_file()"),
     ("m-c20-compat-without-parents", "C20", IF, "        parents = schemas.parent_path(schema_ref.name, schema_ref.version)\n        parents_dat", "        parents = schemas.parent_path(schema_ref.name, schema_ref.version)[-1:]\n        parents_dat"),
-    ("m-c09-ih5-require-group-creates", "C09", OV, "        if grp is not None:\n            msg = f\"Incompatible object ({type(grp).__name__}) already exists\"\n            raise TypeError(msg)\n        return None", "        if grp is not None:\n            return None\n        return None"),
 ]
 
 
